@@ -189,11 +189,56 @@ func (s *state) addFact(f Fact) bool {
 			s.eqConst[f.Atom.A.Key()] = f.Atom.B
 		}
 	}
+	// x == ""  <=>  len(x) == 0  <=>  len(x) < 1
+	if f.Atom.Kind == "EQ" {
+		a, b := f.Atom.A, f.Atom.B
+		var x *Term
+		if sv, ok := a.StrConst(); ok && sv == "" && !b.IsConst() {
+			x = b
+		} else if sv, ok := b.StrConst(); ok && sv == "" && !a.IsConst() {
+			x = a
+		}
+		if x != nil {
+			if !s.addFact(Fact{atomEQ(call("len", x), tInt(0)), f.Pol}) {
+				return false
+			}
+		}
+		var l *Term
+		if iv, ok := a.IntConst(); ok && iv == 0 && b.Op == "call" && b.Name == "len" {
+			l = b
+		} else if iv, ok := b.IntConst(); ok && iv == 0 && a.Op == "call" && a.Name == "len" {
+			l = a
+		}
+		if l != nil && len(l.Args) == 1 && isStringish(l.Args[0]) {
+			if !s.addFact(Fact{atomEQ(l.Args[0], tStr("")), f.Pol}) {
+				return false
+			}
+		}
+	}
+	if f.Atom.Kind == "LT" && f.Atom.A.Op == "call" && f.Atom.A.Name == "len" && len(f.Atom.A.Args) == 1 {
+		if iv, ok := f.Atom.B.IntConst(); ok && iv == 1 {
+			if !s.addFact(Fact{atomEQ(f.Atom.A, tInt(0)), f.Pol}) {
+				return false
+			}
+		}
+	}
 	// errors.Is(e, X) true implies e != nil
 	if f.Atom.Kind == "B" && f.Pol && f.Atom.A.IsCall("errors.Is") && len(f.Atom.A.Args) == 2 {
 		return s.addFact(Fact{atomEQ(f.Atom.A.Args[0], tNil), false})
 	}
 	return true
+}
+
+// isStringish: terms that denote strings in this code base (form values,
+// string-typed getters); used only to relate len(x)==0 with x=="".
+func isStringish(t *Term) bool {
+	if t.Type != nil {
+		if b, ok := t.Type.Underlying().(*types.Basic); ok {
+			return b.Info()&types.IsString != 0
+		}
+		return false
+	}
+	return t.IsCall(".Get", ".FormValue", ".PostFormValue")
 }
 
 type explorer struct {
@@ -924,6 +969,10 @@ func foldBin(op string, a, b *Term) *Term {
 }
 
 func nonNil(t *Term) bool {
+	if r := errorRoot(t); r != "" {
+		// an error value built from a package-level error variable (assumed non-nil)
+		return true
+	}
 	switch t.Op {
 	case "cell", "make", "closure", "fn", "lit", "addr", "iaddr", "gaddr", "new":
 		return true
@@ -1174,7 +1223,11 @@ func (x *explorer) doCall(st *state, fr *frame, c *ssa.CallCommon, bind *ssa.Cal
 		}
 		pureStatic = isPureCall(fnPkgPath(static), funcShortName(static), o, static.Signature)
 	}
-	if !pureStatic && len(static.Blocks) > 0 && isSubjectPkg(fnPkgPath(static)) && fr.depth < x.cfg.MaxDepth && x.cfg.Inline(static) && !x.onStack(st, static) {
+	isBound := strings.HasPrefix(static.Synthetic, "bound method wrapper") || strings.HasPrefix(static.Synthetic, "wrapper for")
+	if isBound {
+		pureStatic = false
+	}
+	if !pureStatic && len(static.Blocks) > 0 && (isBound || (isSubjectPkg(fnPkgPath(static)) && x.cfg.Inline(static))) && fr.depth < x.cfg.MaxDepth+2 && (isBound || fr.depth < x.cfg.MaxDepth) && !x.onStack(st, static) {
 		nf := x.newFrame(st, static, args, free, fr.depth+1)
 		nf.inDefer = fr.inDefer || d != nil
 		if bind != nil {
